@@ -179,6 +179,8 @@ def decOp (s : String) : Option (Op × List String) :=
   | ["compress"] => some (.compress, [])
   | ["unalign"] => some (.unalign, [])
   | ["setalpha", a] => (parseInt? a).map fun v => (.setAlpha v, [])
+  | ["diffwithfirst"] => some (.diffFirst, [])
+  | ["replacematch"] => some (.replaceMatch, [])
   | ["revcompseqs", r] => let names := decNames r; some (.revcompSeqs names, names)
   | ["rmgapsites", f, e] => do
     let (x, y) ← frac f
